@@ -268,6 +268,9 @@ class PlanHarness(e1.Harness):
         if mr[0] == "ret":
             if raised:
                 msgs.append(("C06", f"calls {sorted(raised)} raised but run returned normally"))
+                miss = sorted(self.needed_closure - set(started))
+                if miss:
+                    msgs.append(("C04", f"run returned normally although needed calls {miss} were never executed"))
             else:
                 if set(started) != self.needed_closure:
                     extra = sorted(set(started) - self.needed_closure)
